@@ -23,3 +23,8 @@ Proof.
       * now rewrite level_eqb_refl.
       * now rewrite E.
 Qed.
+
+Lemma contextless_message_task u st i :
+  parser_add [] (mkPmsg u [1%positive] None st i)
+  = POk ([mkTask [([], NMsg (mkPmsg u [1%positive] None st i))] [[]]], []).
+Proof. reflexivity. Qed.
